@@ -971,6 +971,33 @@ def build_xsd(spec):
     return "\n".join(out)
 
 
+def build_xsd2(spec):
+    """two schema files in two namespaces: a.xsd imports b.xsd, extends its types and has elements of
+    its types (cross-module imports, base classes defined in another module)"""
+    def esc(s):
+        return s.replace("&", "&amp;").replace('"', "&quot;").replace("<", "&lt;")
+
+    b = build_xsd({"tns": spec["tns_b"], "types": spec["b_types"], "elements": [], "enums": spec.get("b_enums", [])})
+    out = [f'<xs:schema xmlns:xs="{XS}" targetNamespace="{esc(spec["tns_a"])}" xmlns="{esc(spec["tns_a"])}" '
+           f'xmlns:b="{esc(spec["tns_b"])}"><xs:import namespace="{esc(spec["tns_b"])}" schemaLocation="b.xsd"/>']
+    for t in spec["a_types"]:
+        out.append(f'<xs:complexType name="{esc(t["name"])}">')
+        if t.get("base"):
+            out.append(f'<xs:complexContent><xs:extension base="b:{esc(t["base"])}">')
+        out.append("<xs:sequence>")
+        for e in t["elements"]:
+            out.append(f'<xs:element name="{esc(e)}" type="xs:string"/>')
+        for e, bt in t.get("refs", []):
+            out.append(f'<xs:element name="{esc(e)}" type="b:{esc(bt)}" minOccurs="0" maxOccurs="unbounded"/>')
+        out.append("</xs:sequence>")
+        if t.get("base"):
+            out.append("</xs:extension></xs:complexContent>")
+        out.append("</xs:complexType>")
+        out.append(f'<xs:element name="{esc(t["name"])}_el" type="{esc(t["name"])}"/>')
+    out.append("</xs:schema>")
+    return {"a.xsd": "\n".join(out), "b.xsd": b}
+
+
 OPT_KEYS = {"style": "structure_style", "compound": "compound_fields", "unnest": "unnest_classes"}
 
 
@@ -986,8 +1013,12 @@ def generate(a):
         if k in ("field_case", "class_case", "wrapper"):
             continue
         kw[OPT_KEYS.get(k, k)] = v
+    entry = None
     if a["kind"] == "xsd":
         sources = {"s.xsd": build_xsd(a["spec"])}
+    elif a["kind"] == "xsd2":
+        sources = build_xsd2(a["spec"])
+        entry = ["a.xsd"]
     elif a["kind"] == "json":
         sources = {"s.json": json.dumps(a["doc"], ensure_ascii=False)}
     else:
@@ -1004,7 +1035,7 @@ def generate(a):
 
     CG.make_config = mk
     try:
-        return CG.run_pipeline(sources, **kw)
+        return CG.run_pipeline(sources, entry=entry, **kw)
     finally:
         CG.make_config = orig
 
@@ -1182,6 +1213,16 @@ def _all_names(a):
         for en in sp["enums"]:
             out += [en["name"], *en["values"]]
         return out
+    if a["kind"] == "xsd2":
+        sp = a["spec"]
+        out = [seg for tns in (sp["tns_a"], sp["tns_b"]) for seg in re.split(r"[:/.]", tns) if seg]
+        for t in sp["b_types"]:
+            out += [t["name"], *t["elements"], *t["attributes"]]
+        for en in sp.get("b_enums", []):
+            out += [en["name"], en["name"] + "_el", *en["values"]]
+        for t in sp["a_types"]:
+            out += [t["name"], t["name"] + "_el", *t["elements"], *[r[0] for r in t.get("refs", [])]]
+        return out
     if a["kind"] == "json":
         out = []
 
@@ -1229,9 +1270,17 @@ def covered_pipeline(a, msg):
             if count(s0) == 2 and any(ref_safe_name(f"{s0}_{t}", pfx, conv) == final for t in tags):
                 # a two-member slug group, renamed by preference to name_Tag, never re-checked
                 return "C07-preference-rename-unchecked"
-        if len({own_slug(s0) for s0 in srcs}) > 1 and all(ref_safe_name(s0, pfx, conv) == final for s0 in srcs):
-            # different slugs, and the documented safe_name maps them to the same name
-            return "C07-safe-prefix-collision"
+        # each colliding member under the name the handlers may have given it (numeric suffix of
+        # rename_attributes_by_index): different slugs, yet the documented safe_name maps all to `final`
+        def variants(s0):
+            return [v for v in [s0] + [f"{s0}_{k}" for k in range(1, 10)] if ref_safe_name(v, pfx, conv) == final]
+
+        vs = [variants(s0) for s0 in srcs]
+        if all(vs) and len(srcs) > 1:
+            for combo in itertools.product(*vs):
+                slugs = [own_slug(v) for v in combo]
+                if len(set(slugs)) == len(slugs):
+                    return "C07-safe-prefix-collision"
         return None
     m = re.search(r"classes ('(?:[^'\\]|\\.)*') and ('(?:[^'\\]|\\.)*') are both named ('(?:[^'\\]|\\.)*')", msg)
     if m:
@@ -1286,9 +1335,34 @@ def gen_pipeline(rng, tier):
         {"generic_collections": True}, {"wrapper": True, "compound": True}, {"compound": True, "unnest": True, "frozen": True},
         {"field_case": "camelCase", "class_case": "mixedSnakeCase"}, {"field_case": "mixedCase", "class_case": "snakeCase"},
     ]
+    two = {"kind": "xsd2", "spec": {
+        "tns_a": "http://www.example.com/class/1", "tns_b": "urn:x-y:None",
+        "b_types": [ty("base", ["a", "A"], ["id"]), ty("class", ["class", "import"], []), ty("Z", [], ["a"])],
+        "b_enums": [{"name": "e", "values": ["a", "A", "1"]}],
+        "a_types": [{"name": "base", "base": "base", "elements": ["b"], "refs": [["class", "class"], ["z", "Z"]]},
+                    {"name": "A", "base": "class", "elements": ["a"], "refs": [["base", "base"]]},
+                    {"name": "t", "elements": ["x"], "refs": [["e", "Z"]]}]}}
+    hand.append(two)
     for h in hand:
         for o in matrix:
             yield {**h, "opts": dict(o)}
+    for _ in range(40 if tier == "quick" else 600):
+        pool = rng.sample(XML_NAMES, 8)
+        pool = [x for x in pool if x != "\u2fe0"] or ["a"]
+        bnames = list(dict.fromkeys(rng.choice(pool) for _ in range(rng.randint(1, 3))))
+        spec = {
+            "tns_a": rng.choice(["urn:a", "http://www.example.com/class/1", "http://a.b/c/d"]),
+            "tns_b": rng.choice(["urn:b", "http://www.example.com/None", "urn:x-y:None", "http://a.b/e"]),
+            "b_types": [ty(nm, list(dict.fromkeys(rng.choice(pool) for _ in range(rng.randint(0, 3)))), []) for nm in bnames],
+            "a_types": [
+                {"name": nm, "base": rng.choice(bnames) if rng.random() < 0.5 else None,
+                 "elements": [], "refs": [[rng.choice(pool), rng.choice(bnames)] for _ in range(rng.randint(0, 2))]}
+                for nm in dict.fromkeys(rng.choice(pool) for _ in range(rng.randint(1, 3)))
+            ],
+        }
+        opts = {"style": rng.choice(STYLES), "relative_imports": rng.random() < 0.6, "unnest": rng.random() < 0.3,
+                "slots": rng.random() < 0.3, "generic_collections": rng.random() < 0.3}
+        yield {"kind": "xsd2", "spec": spec, "opts": opts}
     n = 300 if tier == "quick" else 4000
     tnss = [None, None, "urn:x", "http://www.example.com/class/1", "http://1.2/3", "urn:await"]
     for _ in range(n):
@@ -1407,7 +1481,8 @@ ORACLES = [
     Oracle("c07.fields", gen_oracle_fields, oracle_fields, covered_fields, from_ops=("names.rename_attrs", "names.e2e_fields")),
     Oracle("c07.classes", gen_oracle_classes, oracle_classes, covered_classes, from_ops=("names.rename_classes",)),
     Oracle("c07.fresh", gen_oracle_fresh, oracle_fresh, from_ops=("names.unique_name", "names.next_qname", "names.next_available_name"), adapt=adapt_fresh),
-    Oracle("c07.pipeline", gen_pipeline, oracle_pipeline, covered_pipeline, from_ops=("names.e2e_fields",), adapt=adapt_pipeline),
+    Oracle("c07.pipeline", gen_pipeline, oracle_pipeline, covered_pipeline, from_ops=("c07.e2e", "names.e2e_fields"),
+           adapt=lambda op, a: a if op == "c07.e2e" else adapt_pipeline(op, a)),
 ]
 
 CORRS.append(
@@ -1493,21 +1568,27 @@ RULE = (
 
 LEVEL_TEXT = (
     "Lean theorems over all names (all of Unicode, every UEnv/Env) for the naming and renaming decision cores: "
-    "safe_name terminates within 4 calls and yields a non-reserved identifier for the seven word-splitting cases and every "
-    "well-formed prefix; the slug is invariant under case conversion (why de-duplicating by slug suffices for plain names); "
-    "unique_name/next_qname/next_available_name always terminate with a fresh slug; counterexample theorems for "
-    "keyword 'await', originalCase, preference renaming, safe-prefix collisions, abstract suffix. The model is tied to /repo "
-    "by a differential check (15 ops), and the property itself is evaluated on the real renaming handlers, filters and on "
-    "an end-to-end run of the real pipeline (schema/JSON/XML → classes → names) by independent oracles."
+    "safe_name terminates within 3 calls, never returns a reserved word nor a Python keyword (every hard keyword of the running "
+    "interpreter is a stop word: table theorem re-checked each run) and yields an identifier for the seven word-splitting cases and "
+    "every well-formed prefix; the slug is invariant under case conversion (why de-duplicating by slug suffices for plain names); "
+    "unique_name/next_qname/next_available_name always terminate with a fresh slug; rename_duplicate_attributes leaves pairwise "
+    "different slugs when no two-member group exists; counterexample theorems for originalCase, preference renaming, safe-prefix "
+    "collisions, abstract suffix. The model is tied to /repo by a differential check (16 ops), and the property itself is evaluated "
+    "end to end on the REAL generator (transformer.process, all handlers, CodeWriter, validate_imports; stand-in only for the Jinja2 "
+    "templates): every written file compiles, has no duplicate members/classes, the package imports, every class yields binding "
+    "metadata (XmlContext.build_recursive) and an instance, for hostile XSD (one and two namespaces) / JSON / XML sources under "
+    "structure styles x compound/wrapper/unnest x frozen/slots x relative imports x generic collections x naming cases."
 )
 LEVEL_NOTE = (
-    "Partial: only the naming/renaming cores are modelled; package designation, import resolution, circular-reference "
-    "detection and template rendering are not (jinja2/ruff are absent, so generated modules are never rendered or imported; "
-    "the end-to-end oracle stops at class/field/module names computed by the real Filters)."
+    "Partial: only the naming/renaming cores are modelled in Lean; package designation, import resolution, circular-reference "
+    "detection and rendering are covered by the spec-level end-to-end op c07.e2e only (sampling). The Jinja2 templates are replaced "
+    "by harness/standin_render.py (line-for-line transliteration, docstrings omitted); ruff formatting is skipped; WSDL/DTD sources, "
+    "docstring styles and max line length are not exercised."
 )
 TRUSTED = [
     "Python identifier rule = str.isidentifier (XID tables taken from the running interpreter, regenerated each run) and not in keyword.kwlist; NFKC normalisation of identifiers by the Python parser is not modelled",
     "re `\\w`/`\\d` semantics on str patterns (Unicode alnum / Nd) are my reading of CPython's sre; compared through ops names.is_word, names.case(originalCase), names.safe_name",
+    "harness/standin_render.py stands for templates/*.jinja2 (jinja2 is not installed); everything else in the end-to-end run is xsdata's own code",
     "ASCII case mapping only: split_words drops every non-ASCII character, proved in Proofs/Names.lean (splitWords_ascii)",
 ]
 ASSUMPTIONS = [
